@@ -66,21 +66,35 @@ func (r *parkReader) Read(p []byte) (int, error) {
 
 func c15Method(i int) string { return []string{"GET", "POST", "PUT", "DELETE"}[i%4] }
 
+func c15Describe(tg *vegeta.Target) string {
+	keys := make([]string, 0, len(tg.Header))
+	for k := range tg.Header {
+		keys = append(keys, k+"="+strings.Join(tg.Header[k], ","))
+	}
+	sort.Strings(keys)
+	return "T|" + tg.Method + "|" + tg.URL + "|" + strings.Join(keys, ";") + "|" + string(tg.Body)
+}
+
 func caller(tr vegeta.Targeter, idx int) {
 	v, _ := simrt.Park(kCallIdle, 0, -1, int64(idx), 0, nil)
+	var prev *vegeta.Target // the target drawn before, still held (as a worker holds its target during the hit)
 	for v != relQuit {
-		var tg vegeta.Target
-		err := tr(&tg)
+		tg := new(vegeta.Target)
+		err := tr(tg)
 		var out string
 		if err != nil {
 			out = "E|" + err.Error()
 		} else {
-			keys := make([]string, 0, len(tg.Header))
-			for k := range tg.Header {
-				keys = append(keys, k+"="+strings.Join(tg.Header[k], ","))
-			}
-			sort.Strings(keys)
-			out = "T|" + tg.Method + "|" + tg.URL + "|" + strings.Join(keys, ";") + "|" + string(tg.Body)
+			out = c15Describe(tg)
+		}
+		// what the previously drawn target looks like now that others have drawn theirs. Not in the race build: the
+		// detector would see this read as one half of a race whose other half is in vegeta, which the driver
+		// does not attribute to vegeta.
+		if prev != nil && !simrt.RaceBuild {
+			out += "\x01" + c15Describe(prev)
+		}
+		if err == nil {
+			prev = tg
 		}
 		v, _ = simrt.Park(kCallIdle, 0, 1, 0, 0, []byte(out))
 	}
@@ -131,6 +145,18 @@ func runTargeters(tt *testing.T, tape *simrt.Tape, keep bool) (out simrt.Outcome
 			skips[s] = tape.Biased(6, 1, 2)
 		}
 		bodies := kind == "http" && tape.Prob(1, 2)
+		// default headers whose value slice has spare capacity (built by one append per -header flag), under a key
+		// that every target also sets
+		var defHdr http.Header
+		wantTwo := ""
+		if kind != "static" && tape.Prob(1, 2) {
+			var vs []string
+			for i := 0; i < []int{1, 3, 5}[tape.Choose(3)]; i++ {
+				vs = append(vs, "d"+strconv.Itoa(i))
+			}
+			defHdr = http.Header{"X-Two": vs}
+			wantTwo = strings.Join(vs, ",") + ","
+		}
 		// the source
 		var src bytes.Buffer
 		var tr vegeta.Targeter
@@ -145,14 +171,14 @@ func runTargeters(tt *testing.T, tape *simrt.Tape, keep bool) (out simrt.Outcome
 				src.WriteString("\n")
 			}
 			rd.data = src.Bytes()
-			tr = vegeta.NewHTTPTargeter(rd, nil, nil)
+			tr = vegeta.NewHTTPTargeter(rd, nil, defHdr)
 		case "json":
 			for i := 0; i < ntargets; i++ {
 				fmt.Fprintf(&src, "{\"method\":%q,\"url\":\"http://t/%d\",\"header\":{\"X-Idx\":[\"%d\"],\"X-Two\":[\"a%d\"]},\"body\":%q}\n", c15Method(i), i, i, i,
 					base64.StdEncoding.EncodeToString([]byte("body-"+strconv.Itoa(i))))
 			}
 			rd.data = src.Bytes()
-			tr = vegeta.NewJSONTargeter(rd, nil, nil)
+			tr = vegeta.NewJSONTargeter(rd, nil, defHdr)
 		case "static":
 			tgts := make([]vegeta.Target, ntargets)
 			for i := range tgts {
@@ -168,6 +194,7 @@ func runTargeters(tt *testing.T, tape *simrt.Tape, keep bool) (out simrt.Outcome
 		}
 		var calls []*c15Call
 		cur := map[int]*c15Call{} // actor -> call in progress
+		held := map[int]string{}  // actor -> description of the last target it drew, as it was at return
 		started, lastRel := 0, -1
 		overlapped := false
 		parse := func(blob string) (int, string) {
@@ -185,7 +212,7 @@ func runTargeters(tt *testing.T, tape *simrt.Tape, keep bool) (out simrt.Outcome
 			if err != nil || idx < 0 || idx >= ntargets {
 				return -2, "a target that is not in the input: " + blob
 			}
-			wantHdr := fmt.Sprintf("X-Idx=%d;X-Two=a%d", idx, idx)
+			wantHdr := fmt.Sprintf("X-Idx=%d;X-Two=%sa%d", idx, wantTwo, idx)
 			wantBody := ""
 			if kind == "json" || bodies {
 				wantBody = "body-" + strconv.Itoa(idx)
@@ -203,7 +230,14 @@ func runTargeters(tt *testing.T, tape *simrt.Tape, keep bool) (out simrt.Outcome
 					if c := cur[ar.Actor]; c != nil {
 						c.ret, c.done = w.Step, true
 						delete(cur, ar.Actor)
-						idx, bad := parse(string(ar.Blob))
+						now, again, _ := strings.Cut(string(ar.Blob), "\x01")
+						if again != "" && again != held[ar.Actor] {
+							fail("C15.wrong-target", "caller a%d still held %q; after later draws (its own and others') the same target reads %q: mixed with another", ar.Actor, held[ar.Actor], again)
+						}
+						if strings.HasPrefix(now, "T|") {
+							held[ar.Actor] = now
+						}
+						idx, bad := parse(now)
 						c.idx = idx
 						w.Log.Addf("%d ret a%d idx=%d", w.Step, ar.Actor, idx)
 						if bad != "" {
